@@ -342,3 +342,53 @@ class CallMonitor:
         sys.setprofile(None)
         self._armed = False
         return False
+
+
+def retained_tensors(root, limit=2_000_000):
+    """Number of floating-point tensors reachable from `root` through instance attributes (`__dict__`, `__slots__`) and
+    plain containers — what the object keeps alive, whatever the attribute is called. Used by C07: values retained
+    outside the bounded cache are cached entries in all but name."""
+    import torch
+    seen = set()
+    stack = [root]
+    n = 0
+    visited = 0
+    while stack and visited < limit:
+        o = stack.pop()
+        if id(o) in seen:
+            continue
+        seen.add(id(o))
+        visited += 1
+        if isinstance(o, torch.Tensor):
+            if o.is_floating_point() and o.numel() >= 1:
+                n += 1
+            continue
+        if isinstance(o, (str, bytes, int, float, bool, type(None), type, torch.dtype, torch.device)) or callable(o) and not hasattr(o, "__dict__") and not hasattr(o, "__slots__"):
+            continue
+        if isinstance(o, dict):
+            stack.extend(o.keys())
+            stack.extend(o.values())
+            continue
+        if isinstance(o, (list, tuple, set, frozenset)):
+            stack.extend(o)
+            continue
+        mod = getattr(type(o), "__module__", "") or ""
+        if not (mod.startswith("torchsde") or mod.startswith("sim.") or mod == "collections"):
+            if isinstance(o, FaultyCache):
+                pass
+            else:
+                continue
+        if isinstance(o, FaultyCache):
+            stack.append(o._inner)
+            continue
+        d = getattr(o, "__dict__", None)
+        if isinstance(d, dict):
+            stack.extend(d.values())
+        for name in _all_slots(o):
+            try:
+                stack.append(getattr(o, name))
+            except AttributeError:
+                pass
+        if isinstance(o, dict):
+            stack.extend(o.values())
+    return n
